@@ -271,8 +271,9 @@ def main():
             samples += res["samples"][: (2 if not samples else 1)]
         per_variant.append({k: res[k] for k in ("variant", "trng_flavor", "runs", "runs_requested", "baseline_runs", "baseline_exhaustive", "wall_s", "runs_per_hour", "distinct_states", "distinct_schedules", "distinct_nontrivial_plans", "digest")})
     events = ctr.get("events", 0)
-    faults = {k: v for k, v in ctr.items() if k.startswith("fault_") or k in ("delivery_full", "os_success")}
-    probes = {k: v for k, v in ctr.items() if k.startswith("probe_")}
+    faults = {k: v for k, v in ctr.items() if (k.startswith("fault_") or k in ("delivery_full", "os_success")) and (v or k in REQUIRED_PROBES.get(prop, []))}
+    faults["not_injected_no_such_component"] = REAL_STUB["not_injected_no_such_component"]
+    probes = {k: v for k, v in ctr.items() if k.startswith("probe_") and (v or k in REQUIRED_PROBES.get(prop, []))}
     missing = []
     if not violation and not fault:
         for k in REQUIRED_PROBES.get(prop, []):
